@@ -250,7 +250,7 @@ def replay(rep):
     r = rep["replay"]
     if r.get("fn") == "blocks":
         return c03_blocks.replay(r)
-    if r.get("fn") == "insert":
+    if r.get("fn") in ("insert", "binding"):
         return c03_insert.replay(r)
     m = common.Model()
     outs = []
